@@ -90,7 +90,14 @@ E3_RULE = (
     "chunk->worker assignment, seeded order of every file-system operation of the real forked workers (uniform, "
     "PCT-style with pre-emptions, reader-chases-writer), flush granule in {4096, 8192, 65536}. distinct = distinct "
     "(tree, reads-from map) pairs, the reads-from map saying for every task which version of which other file each of "
-    "its reads observed; non-trivial = a multi-worker schedule or a task with at least one cross-file read."
+    "its reads observed; non-trivial = a multi-worker schedule or a task with at least one cross-file read. "
+    "E4 layout-sim (clause a): one run = one layout (PYTHONHASHSEED drawn from 2^30, heap shift n in {0..34} applied before "
+    "`import ast`, keyed ast.AST.__hash__ or the native one) in a freshly exec'd interpreter with ASLR off, answering 14 drawn "
+    "operations (format_code with drawn options on corpus inputs / variants / generated modules with process-dependent "
+    "constant expressions: hash(), id(), str/list/tuple/join/next(iter()) over set displays; single rules on their own "
+    "example inputs) resp. one slice of the whole corpus (sweep), each in a fresh fork, compared byte for byte with the "
+    "canonical layout (0,0,0); distinct = (layout probe, operation) pairs; non-trivial = the layout's probe sets (names, "
+    "AST types, fresh nodes) iterate in another order than in the canonical layout."
 )
 
 
@@ -103,8 +110,10 @@ def _e3_plan(prop, tier):
             "batches": [
                 dict(base, label="pool-base", n=110 if q else 6000, kwargs={"profile": "base", "schedules": 3 if q else 6}),
                 dict(base, label="pool-edges", n=70 if q else 4000, kwargs={"profile": "edges", "schedules": 3 if q else 6}),
+                {"engine": "e4_layout", "label": "layout", "n": 24 if q else 1500, "kwargs": {"ops": 14}, "timeout": 900.0},
+                {"engine": "e4_layout", "label": "layout-sweep", "n": 32 if q else 256, "indexed": True, "kwargs": {}, "timeout": 1800.0},
             ],
-            "probes": ["fs.READ", "schedules", "parent_writes"],
+            "probes": ["fs.READ", "schedules", "parent_writes", "fault.layout_permuted_set_of_names", "fault.layout_permuted_set_of_types", "fault.layout_permuted_set_of_nodes", "ops_with_constant_evaluation"],
             "assumptions": [
                 "workers share nothing but the file system, so serialising at file-system operations explores all behaviours (DESIGN 2.3)",
                 "SimPool follows CPython 3.12 pool.py for chunking, ordering and error propagation",
